@@ -268,7 +268,19 @@ package jsonpath
 //@ spec RLfilterDef(n *syntaxFilterQualifier) bool = RLok(n) ==> Kok(n.syntaxBasicNode) && RLfilterList(n) && RLfilterMap(n) && (forall r Val, c Val {RLn(n, r, c)} :: !isType(c, []interface{}) && !isType(c, map[string]interface{}) ==> RLn(n, r, c) == 0)
 //@ spec WFfilterDef(n *syntaxFilterQualifier) bool = RLfilterDef(n) && n != nil && height(n) == hgt(n.syntaxBasicNode) && WFbasic(n.syntaxBasicNode) && errRT(n.syntaxBasicNode) && n.query != nil && WFquery(n.query) && 0 <= qheight(n.query) && qheight(n.query) < height(n) && !chainSingle(n)
 //@ spec WFffuncDef(n *syntaxFilterFunction) bool = RLffuncDef(n) && n != nil && height(n) == hgt(n.syntaxBasicNode) && WFbasic(n.syntaxBasicNode) && errRT(n.syntaxBasicNode) && n.function != nil && (chainSingle(n) ==> singleNext(n.syntaxBasicNode))
-//@ spec WFafuncDef(n *syntaxAggregateFunction) bool = !RLok(n) && n != nil && height(n) == hgt(n.syntaxBasicNode) && WFbasic(n.syntaxBasicNode) && errRT(n.syntaxBasicNode) && n.function != nil && n.param != nil && WFnode(n.param) && height(n.param) < height(n) && (chainSingle(n) ==> singleNext(n.syntaxBasicNode))
+// An aggregate function node: its parameter path P is evaluated first; if P selects nothing the node selects nothing;
+// otherwise the function receives the list of everything P selected - or, when P is single-valued (not a value group) and
+// its one value is an array, the elements of that array - and the continuation is applied to the function's result unless
+// the function fails.  rlArr(P, r, c) names the list of P's results; what a function returns depends only on the values of
+// the list it is given (extensionality of afRes / afErr, as for RH).
+//@ smt (declare-fun rlArr (Val Val Val) (Array Int Val))
+//@ smt (assert (forall ((p Val) (r Val) (c Val) (i Int)) (! (= (select (rlArr p r c) i) (RLv p r c i)) :pattern ((select (rlArr p r c) i)))))
+//@ smt (assert (forall ((f Int) (A (Array Int Val)) (B (Array Int Val)) (o Int) (m Int)) (! (=> (forall ((t Int)) (=> (and (<= 0 t) (< t m)) (= (select A (idx o t)) (select B (idx o t))))) (and (= (afRes f A o m) (afRes f B o m)) (= (afErr f A o m) (afErr f B o m)))) :pattern ((afRes f A o m) (afRes f B o m)) :pattern ((afErr f A o m) (afErr f B o m)))))
+//@ spec aggWhole(p any, r any, c any) bool = vgroup(p) || !isType(RLv(p, r, c, 0), []interface{})
+//@ spec aggRes(n *syntaxAggregateFunction, r any, c any) any = aggWhole(n.param, r, c) ? afRes(n.function, rlArr(n.param, r, c), 0, RLn(n.param, r, c)) : afRes(n.function, A_Val[arr(asType(RLv(n.param, r, c, 0), []interface{}))], off(asType(RLv(n.param, r, c, 0), []interface{})), len(asType(RLv(n.param, r, c, 0), []interface{})))
+//@ spec aggErr(n *syntaxAggregateFunction, r any, c any) error = aggWhole(n.param, r, c) ? afErr(n.function, rlArr(n.param, r, c), 0, RLn(n.param, r, c)) : afErr(n.function, A_Val[arr(asType(RLv(n.param, r, c, 0), []interface{}))], off(asType(RLv(n.param, r, c, 0), []interface{})), len(asType(RLv(n.param, r, c, 0), []interface{})))
+//@ spec RLafuncDef(n *syntaxAggregateFunction) bool = RLok(n) ==> Kok(n.syntaxBasicNode) && RLok(n.param) && (forall r Val, c Val {RLn(n, r, c)} :: RLn(n, r, c) == ((RLn(n.param, r, c) > 0 && aggErr(n, r, c) == nil) ? Kn(n.syntaxBasicNode, r, aggRes(n, r, c)) : 0)) && (forall r Val, c Val, i {RLv(n, r, c, i)} :: RLn(n.param, r, c) > 0 && aggErr(n, r, c) == nil ==> RLv(n, r, c, i) == Kv(n.syntaxBasicNode, r, aggRes(n, r, c), i))
+//@ spec WFafuncDef(n *syntaxAggregateFunction) bool = RLafuncDef(n) && n != nil && height(n) == hgt(n.syntaxBasicNode) && WFbasic(n.syntaxBasicNode) && errRT(n.syntaxBasicNode) && n.function != nil && n.param != nil && WFnode(n.param) && height(n.param) < height(n) && (chainSingle(n) ==> singleNext(n.syntaxBasicNode))
 
 // WF of subscripts
 //@ spec WFindexDef(n *syntaxIndexSubscript) bool = n != nil
@@ -528,7 +540,7 @@ package jsonpath
 //@   ensures leaf: ffErr(f.function, current) == nil && f.next == nil && !f.accessorMode ==> ret == nil && len(container.result) == old(len(container.result)) + 1 && elemAt(container.result, old(len(container.result))) == ffRes(f.function, current)
 
 //@ func (*syntaxAggregateFunction).retrieve
-//@   props C03 C04 C05 C06 C20 C14 C12 C13
+//@   props C01 C08 C03 C04 C05 C06 C20 C14 C12 C13
 //@   implements syntaxNode.retrieve
 //@   unfold WFnode(this) ==> WFafuncDef(f)
 // the aggregate sees the whole list of values its parameter path produced, or the elements of the single array
